@@ -210,7 +210,7 @@ def f13State : ToNNX Nat :=
                                                          ("scale", .leaf ⟨.user 0 "Param", 1, []⟩),
                                                          ("var", .leaf ⟨.user 1 "BatchStat", 1, []⟩)]),
                                   ("Dense_0", .node [("kernel", .leaf ⟨.user 0 "Param", 5, []⟩)])])],
-    reg := builtinReg, rngs := ⟨[]⟩ }
+    reg := builtinReg, rngs := ⟨[], 0⟩ }
 
 /-- the updates of one call with `mutable=['batch_stats']` -/
 def f13Updates : Forest (LBox Nat) :=
@@ -253,6 +253,72 @@ theorem tonnx_call_output (m : LinenMod α ι ο μ) (s : ToNNX α) (mu : Option
     obtain ⟨_, _, _, _, rfl⟩ := habs
     rfl
 
+private theorem absorb_rngs (s s' : ToNNX α) (U : Forest (LBox α)) (h : s.absorb U = .ok s') : s'.rngs = s.rngs := by
+  simp only [ToNNX.absorb, bind_ok, pure, Except.pure, Except.ok.injEq] at h
+  obtain ⟨_, _, _, _, rfl⟩ := h
+  rfl
+
+/-- **which `Rngs` the keys come from**: a call that is handed a non-empty `rngs=` draws the keys for
+`apply` from *that* object — one key per stream, the object's counters advance by one, every key carries its
+identity — and leaves the wrapper's own streams untouched; a call without (or with an empty) `rngs=` draws
+from the wrapper's own `rngs`, which advance, and is the same as `ToNNX.call`. -/
+theorem tonnx_call_uses_given_rngs (m : LinenMod α ι ο μ) (s : ToNNX α) (given : Option Rngs) (mu : Option μ) (x : ι)
+    (o : ο) (s' : ToNNX α) (given' : Option Rngs) (h : s.callR m given mu x = .ok (o, s', given')) :
+    (∀ g, given = some g → g.streams ≠ [] →
+      ∃ V U, s.heldVars = .ok V ∧ m.apply V g.draw.1 mu x = .ok (o, U) ∧ given' = some g.draw.2 ∧
+        s'.rngs = s.rngs ∧ ∀ e ∈ g.draw.1, e.2.src = g.src) ∧
+    ((given = none ∨ ∃ g, given = some g ∧ g.streams = []) →
+      ∃ V U, s.heldVars = .ok V ∧ m.apply V s.rngs.draw.1 mu x = .ok (o, U) ∧ given' = given ∧
+        s'.rngs = s.rngs.draw.2 ∧ s.call m mu x = .ok (o, s')) := by
+  simp only [ToNNX.callR, bind_ok] at h
+  obtain ⟨V, hV, ⟨o1, U⟩, happ, h⟩ := h
+  refine ⟨?_, ?_⟩
+  · intro g hg hne
+    subst hg
+    have hc : chooseRngs (some g) = true := by
+      simp only [chooseRngs, Bool.not_eq_true', List.isEmpty_eq_false_iff]; exact hne
+    simp only [hc, ↓reduceIte, Option.getD_some] at happ h
+    refine ⟨V, U, hV, ?_, ?_, ?_, ?_⟩
+    · cases mu with
+      | none => simp only [pure, Except.pure, Except.ok.injEq, Prod.mk.injEq] at h; rw [← h.1]; exact happ
+      | some mv =>
+        simp only [bind_ok, pure, Except.pure, Except.ok.injEq, Prod.mk.injEq] at h
+        obtain ⟨_, _, rfl, _⟩ := h; exact happ
+    · cases mu with
+      | none => simp only [pure, Except.pure, Except.ok.injEq, Prod.mk.injEq] at h; exact h.2.2.symm
+      | some mv =>
+        simp only [bind_ok, pure, Except.pure, Except.ok.injEq, Prod.mk.injEq] at h
+        obtain ⟨_, _, _, _, rfl⟩ := h; rfl
+    · cases mu with
+      | none => simp only [pure, Except.pure, Except.ok.injEq, Prod.mk.injEq] at h; rw [← h.2.1]
+      | some mv =>
+        simp only [bind_ok, pure, Except.pure, Except.ok.injEq, Prod.mk.injEq] at h
+        obtain ⟨s1, habs, _, rfl, _⟩ := h
+        exact absorb_rngs _ _ U habs
+    · intro e he
+      simp only [Rngs.draw, List.mem_map] at he
+      obtain ⟨nc, _, rfl⟩ := he; rfl
+  · intro hg
+    have hc : chooseRngs given = false := by
+      rcases hg with rfl | ⟨g, rfl, hge⟩
+      · rfl
+      · simp [chooseRngs, hge]
+    simp only [hc, Bool.false_eq_true, ↓reduceIte] at happ h
+    refine ⟨V, U, hV, ?_⟩
+    cases mu with
+    | none =>
+      simp only [pure, Except.pure, Except.ok.injEq, Prod.mk.injEq] at h
+      obtain ⟨rfl, rfl, rfl⟩ := h
+      refine ⟨happ, rfl, rfl, ?_⟩
+      simp only [ToNNX.call, hV, bind, Except.bind, happ, pure, Except.pure]
+    | some mv =>
+      simp only [bind_ok, pure, Except.pure, Except.ok.injEq, Prod.mk.injEq] at h
+      obtain ⟨s1, habs, rfl, rfl, rfl⟩ := h
+      refine ⟨happ, rfl, by rw [absorb_rngs _ _ U habs], ?_⟩
+      simp only [ToNNX.call, hV, bind, Except.bind, happ, pure, Except.pure]
+      have habs' : ({ attrs := s.attrs, reg := s.reg, rngs := s.rngs.draw.snd } : ToNNX α).absorb U = .ok s1 := habs
+      rw [habs']
+
 /-- **`lazy_init`** returns `init`'s output; afterwards the wrapper is in step with a caller who keeps
 `init`'s variables, and every collection is stored under the Variable type registered for it (same
 array, axis names as `sharding`) -/
@@ -283,17 +349,17 @@ theorem tonnx_refines_linen (m : LinenMod α ι ο μ) (hm : ModOk m) (hist : Li
 /-- non-vacuity of the refinement: the toy module (`y = w·x + c`, the counter `c` goes up on `mutable`
 calls) satisfies `ModOk`; `lazy_init` of an empty wrapper puts it in step with a Linen user, and the
 theorem then applies to a history with `mutable` on, off, on -/
-example : ∃ s, Sim s ⟨toyVars 2 0, (⟨[("params", 0)]⟩ : Rngs).draw.2⟩ ∧
+example : ∃ s, Sim s ⟨toyVars 2 0, (⟨[("params", 0)], 0⟩ : Rngs).draw.2⟩ ∧
     ∃ s', runWrapper toyMod s [(some (), 3), (none, 4), (some (), 5)] = .ok ([6, 9, 11], s') := by
   have hreg := builtinReg_ok
-  obtain ⟨s, _, hsim, _⟩ := tonnx_lazy_init toyMod toyMod_ok ⟨[], builtinReg, ⟨[("params", 0)]⟩⟩ hreg.1 hreg.2 rfl
+  obtain ⟨s, _, hsim, _⟩ := tonnx_lazy_init toyMod toyMod_ok ⟨[], builtinReg, ⟨[("params", 0)], 0⟩⟩ hreg.1 hreg.2 rfl
     1 2 (toyVars 2 0) rfl
   refine ⟨s, hsim, ?_⟩
-  have href : ∃ ref', runRef toyMod ⟨toyVars 2 0, (⟨[("params", 0)]⟩ : Rngs).draw.2⟩
+  have href : ∃ ref', runRef toyMod ⟨toyVars 2 0, (⟨[("params", 0)], 0⟩ : Rngs).draw.2⟩
       [(some (), 3), (none, 4), (some (), 5)] = .ok ([6, 9, 11], ref') := by
-    have hd : (runRef toyMod ⟨toyVars 2 0, (⟨[("params", 0)]⟩ : Rngs).draw.2⟩
+    have hd : (runRef toyMod ⟨toyVars 2 0, (⟨[("params", 0)], 0⟩ : Rngs).draw.2⟩
         [(some (), 3), (none, 4), (some (), 5)]).toOption.map Prod.fst = some [6, 9, 11] := by decide
-    cases hr : runRef toyMod ⟨toyVars 2 0, (⟨[("params", 0)]⟩ : Rngs).draw.2⟩
+    cases hr : runRef toyMod ⟨toyVars 2 0, (⟨[("params", 0)], 0⟩ : Rngs).draw.2⟩
         [(some (), 3), (none, 4), (some (), 5)] with
     | error e => rw [hr] at hd; simp [Except.toOption] at hd
     | ok p =>
@@ -543,10 +609,10 @@ theorem tolinen_reseed_fresh (ss : List (String × RngStream)) (path : Path) (rn
 call) hands stream `n` the key `(n, c + i)`; with distinct stream names, two different calls never give
 the wrapped module a key in common. -/
 theorem tonnx_keys_never_reused (r : Rngs) (hn : (r.streams.map Prod.fst).Nodup) (i j : Nat) (hij : i ≠ j) :
-    (r.after i).draw.1 = (r.streams.map fun nc => (nc.1, (⟨nc.1, nc.2 + i⟩ : Key))) ∧
+    (r.after i).draw.1 = (r.streams.map fun nc => (nc.1, (⟨nc.1, nc.2 + i, r.src⟩ : Key))) ∧
     ∀ e ∈ (r.after i).draw.1, ∀ e' ∈ (r.after j).draw.1, e.2 ≠ e'.2 := by
-  have hd : ∀ i, (r.after i).draw.1 = (r.streams.map fun nc => (nc.1, (⟨nc.1, nc.2 + i⟩ : Key))) := by
-    intro i; simp [Rngs.draw, Rngs.after_streams, List.map_map, Function.comp_def]
+  have hd : ∀ i, (r.after i).draw.1 = (r.streams.map fun nc => (nc.1, (⟨nc.1, nc.2 + i, r.src⟩ : Key))) := by
+    intro i; simp [Rngs.draw, Rngs.after_streams, Rngs.after_src, List.map_map, Function.comp_def]
   refine ⟨hd i, ?_⟩
   intro e he e' he' heq
   rw [hd i] at he; rw [hd j] at he'
@@ -557,7 +623,7 @@ theorem tonnx_keys_never_reused (r : Rngs) (hn : (r.streams.map Prod.fst).Nodup)
   subst hab
   omega
 
-example : (⟨[("params", 0), ("dropout", 3)]⟩ : Rngs).after 2 |>.draw.1
-    = [("params", ⟨"params", 2⟩), ("dropout", ⟨"dropout", 5⟩)] := by decide
+example : (⟨[("params", 0), ("dropout", 3)], 7⟩ : Rngs).after 2 |>.draw.1
+    = [("params", ⟨"params", 2, 7⟩), ("dropout", ⟨"dropout", 5, 7⟩)] := by decide
 
 end Flax.C18
